@@ -219,4 +219,18 @@ WellFormedStrings == /\ CharTableOK
                      /\ IllegalClasses = {"c0", "vt_ff", "nul", "surrogate", "nonchar"}
                      /\ \A s \in UNION {[1..n -> CharClasses] : n \in 0..3} :
                            \A k \in DOMAIN s : WellFormedChar(s[k])
+
+(* ---- where the reports go.  Directories as sequences of components; cwd0 = *)
+(* the working directory when the options are read, cwd1 = the one the tests  *)
+(* left the process in (a test may chdir and never go back; every             *)
+(* --resume-layer child reads the same option in the same cwd0).  The         *)
+(* directory is fixed when the options are read: a relative --xml option      *)
+(* names <cwd0>/<option>/testreports whatever happens afterwards.             *)
+ResolveAtConfigure(cwd0, cwd1, absolute, option) ==
+  (IF absolute THEN <<>> ELSE cwd0) \o option \o <<"testreports">>
+ReportDirIndependentOfLastCwd ==
+  LET D == {<<"start">>, <<"tmp">>, <<"start", "sub">>}
+  IN \A c0 \in D, c1 \in D, c2 \in D, ab \in BOOLEAN :
+        ResolveAtConfigure(c0, c1, ab, <<"d">>) = ResolveAtConfigure(c0, c2, ab, <<"d">>)
+ASSUME ReportDirIndependentOfLastCwd
 =============================================================================
